@@ -15,7 +15,7 @@ from sim import driver
 from sim.driver import Inconclusive, canon
 
 VERIF = driver.VERIF
-OUT = os.path.join(VERIF, "out")
+OUT = os.environ.get("VERIF_OUT", os.path.join(VERIF, "out"))
 LEVEL = "exploration"
 
 
@@ -560,8 +560,9 @@ def _absorb(scn, agg, r):
 
 
 def write_evidence(scn, tier, seed, agg, distinct_unlisted, known_hit, wall_s, selftest, extra=None):
-    os.makedirs(os.path.join(VERIF, "evidence"), exist_ok=True)
-    path = os.path.join(VERIF, "evidence", f"{scn.pid}.json")
+    evdir = os.environ.get("VERIF_EVIDENCE_DIR", os.path.join(VERIF, "evidence"))
+    os.makedirs(evdir, exist_ok=True)
+    path = os.path.join(evdir, f"{scn.pid}.json")
     ev = {
         "property_id": scn.pid,
         "tier": tier,
